@@ -963,9 +963,49 @@ func genReloadE2E(r *Rand, p *Plan, tier string, burst bool) {
 	p.MaxSteps = 6000
 }
 
+// genC16watcher: a document history that goes through the file watcher: rewrites of the
+// configured file, writes to siblings whose names contain the configured name (editor
+// backups, staged copies), swap files, and writes whose change event is lost.
+func genC16watcher(r *Rand, p *Plan, tier string) {
+	p.Family = "config-watcher"
+	p.Scen.Server = "none"
+	p.Scen.Format = PickOf(r, "yaml", "json")
+	d := GenDoc(r, DocOpts{Filters: true})
+	ls := &LoaderScen{Watcher: true}
+	n := 2 + r.Intn(up(5))
+	cur := d
+	for i := 0; i < n; i++ {
+		if i > 0 {
+			cur = mutateDoc(r, cur)
+		}
+		text := string(cur.Render(p.Scen.Format))
+		st := LoaderStep{Doc: len(p.Scen.RawDocs), Via: "watch"}
+		if i > 0 {
+			switch r.Intn(10) {
+			case 0, 1, 2:
+				// a different, loadable document lands next to the configured file
+				st.Sibling = PickOf(r, ".new", "~", ".orig", ".bak", ".swp")
+				text = string(mutateDoc(r, mutateDoc(r, cur)).Render(p.Scen.Format))
+			case 3:
+				text = PickOf(r, "{{{ not: [valid", "users: [}\n", "[1,2", "%%%")
+			case 4:
+				st.NoEvent = true
+			}
+		}
+		p.Scen.RawDocs = append(p.Scen.RawDocs, text)
+		ls.Steps = append(ls.Steps, st)
+	}
+	p.Scen.Loader = ls
+	p.Tape = r.Tape(10)
+}
+
 func genC16(r *Rand, p *Plan, tier string) {
 	if r.Chance(30) {
 		genC16e2e(r, p, tier)
+		return
+	}
+	if r.Chance(15) {
+		genC16watcher(r, p, tier)
 		return
 	}
 	p.Family = "config-history"
